@@ -80,7 +80,7 @@ def differential(ctx, scs, impl):
                 finding = None
                 if '-O' in name or name.endswith('O') or 'O+' in name:
                     # the only accepted difference: the internal assertion of Lock.__aexit__ (known finding D14)
-                    if tr[-1][1:3] == [91, 20] or [20] in [e[-1:] for e in tr if len(e) > 2 and e[1] in (3, 91)]:
+                    if tr[-2][1:3] == [91, 20] or [20] in [e[-1:] for e in tr if len(e) > 2 and e[1] in (3, 91)]:
                         finding = 'D14'
                 ctx.fail({'scenario': sc, 'configuration': name, 'default_trace': tr, 'other_trace': other},
                          'trace under configuration %s differs from the default configuration' % name,
